@@ -73,6 +73,8 @@ def check_case(mode: str, names, endian, align, res: JobResult, tier="quick", on
                 continue
             if mode == "C02":
                 _c02(inp, o, T, viol, reader, res)
+                if inp.label == "base" and not eof_tail:
+                    _c02_cuts(inp, o, T, viol, reader, res)
             else:
                 _c01_parsed(inp, o, T, viol, reader, res, eof_tail)
         if mode == "C01" and (not compiled or False in L.err):
@@ -121,6 +123,29 @@ def _c02(inp, o, T, viol, reader, res):
             return
     if nontriv:
         res.nontrivial += 1
+
+
+def _c02_cuts(inp, full, T, viol, reader, res):
+    """Every input on which parsing succeeds - including a truncated one (cut inside trailing padding): dumps() has exactly the
+    consumed length and the value is the full input's value."""
+    n = min(inp.consumed, len(inp.data), 48)
+    for k in range(n):
+        o = sc.parse(T, inp.data[:k])
+        res.transitions += 1
+        if not o.ok:
+            continue
+        res.evaluations += 1
+        try:
+            out = o.obj.dumps()
+        except Exception as e:  # noqa: BLE001
+            viol("cut:dump-raises", f"in={inp.data[:k].hex()} (cut {k}/{inp.consumed}) parsed to {o.value} but dumps raises {impl.exc_sig(e)}", reader, inp)
+            return
+        if len(out) != o.tell:
+            viol("cut:dump-length", f"in={inp.data[:k].hex()} (cut {k}/{inp.consumed}): consumed {o.tell}, dumped {len(out)} bytes {out.hex()}", reader, inp)
+            return
+        if o.tell > k and any(inp.mask[i] for i in range(k, min(o.tell, len(inp.mask)))):
+            viol("cut:consumed-beyond-input", f"in={inp.data[:k].hex()} (cut {k}/{inp.consumed}): parse returned {o.value} claiming {o.tell} bytes although data bytes are missing", reader, inp)
+            return
 
 
 def _roundtrip(v, T, viol, reader, inp, res, eof_tail, origin: str):
